@@ -1,6 +1,6 @@
 (* C09 - a server-initiated channel close affects that channel only.
    This file only pins statements. *)
-From Amq Require Import Lib.Base Gen.Consts Model.Wire Model.Frames Model.OutBuf Model.Collector Model.Slots Model.Core Spec.Slots Spec.Content Proofs.Slots Proofs.OutBuf Proofs.Collector Proofs.CoreContent Proofs.CoreInv Proofs.CoreMore Check.Core Proofs.Examples.
+From Amq Require Import Lib.Base Gen.Consts Model.Wire Model.Frames Model.OutBuf Model.Collector Model.Slots Model.Core Spec.Slots Spec.Content Proofs.Slots Proofs.OutBuf Proofs.Collector Proofs.CoreContent Proofs.CoreInv Proofs.CoreMore Check.Core Proofs.Examples Model.Sys Proofs.Sys Proofs.SysLive.
 
 (* a successful Channel.Close(n): slot n and its id are gone, exactly Channel.CloseOk(n) is queued, phase and channel-0 state are untouched and every other slot is as before *)
 Theorem C09_effect : forall (n code : N) (text dbg : str) (c c' : core), steady c -> n <> 0 -> process c (FMethod n (MChanClose code text), dbg) = (OOk, c') -> alookup n (c_slots c') = None /\ c_ids c' = snd (remove n (c_ids c)) /\ c_out c' = ob_append (c_out c) (ser_chan_close_ok n) /\ c_phase c' = c_phase c /\ c_ch0 c' = c_ch0 c /\ (forall k : N, k <> n -> alookup k (c_slots c') = alookup k (c_slots c)).
@@ -22,6 +22,18 @@ Proof. exact closed_slot_wakeup. Qed.
 Theorem C09_no_panic : forall (c : core) (f : dframe) (o : outcome) (c' : core), process c f = (o, c') -> WFs c -> (forall site : N, o <> OPanic site) /\ WFs c'.
 Proof. exact process_WFs. Qed.
 
+(* THE WHOLE SYSTEM, EVERY SCHEDULE, THE SERVER CLOSING ANY CHANNEL AT ANY MOMENT (Model/Sys.v, action ASrvClose): the guarantees of every channel the server has not closed are what they are without any close - each call returns the answer to its own request, a blocked caller is owed exactly its one reply, nothing of it is lost -; on the closed channel what the calls returned before is still exactly the answers to its own first requests; the I/O thread never finds a reply queue full (a queued reply plus the verdict fit: 2 <= qcap) nor a frame for the slot it dropped; a caller is marked failed only when the I/O thread ended or the server closed ITS channel *)
+Theorem C09_system_isolation : forall (answer : N -> N -> N) (bound qcap : N) (progs : N -> list call), 2 <= qcap -> forall sched : list act, let s := yrun answer bound qcap (init_sys progs) sched in y_fail s = false /\ (forall n : N, let c := y_ch s n in yc_results c = map (answer n) (firstn (length (yc_results c)) (syncs (yc_issued c))) /\ (yc_srv_closed c = false -> yc_wait c = false -> yc_failed c = false -> yc_results c = map (answer n) (syncs (yc_issued c))) /\ (yc_srv_closed c = false -> yc_wait c = true -> exists r : N, syncs (yc_issued c) = firstn (length (yc_results c)) (syncs (yc_issued c)) ++ [r] /\ inflight answer s n = [answer n r]) /\ (length (yc_replyq c) <= 2)%nat /\ yc_issued c ++ yc_prog c = progs n /\ (yc_failed c = true -> y_dead s = true \/ yc_srv_closed c = true)).
+Proof. exact sys_own_reply. Qed.
+
+(* ... and once the I/O thread has processed the server's close of channel n (slot gone), a caller blocked on n returns at once - the reply already queued, the verdict ServerClosedChannel, or an error -, and every later call on n fails at once without handing anything over *)
+Theorem C09_system_closed_caller_released : forall (answer : N -> N -> N) (bound qcap : N) (progs : N -> list call), 2 <= qcap -> forall (sched : list act) (n : N), let s := yrun answer bound qcap (init_sys progs) sched in y_dead s = true \/ yc_slot_gone (y_ch s n) = true -> yc_wait (y_ch (ystep answer bound qcap s (ARecv n)) n) = false /\ yc_wait (y_ch (ystep answer bound qcap s (ASend n)) n) = yc_wait (y_ch s n) /\ (yc_wait (y_ch s n) = false -> yc_failed (y_ch s n) = false -> yc_prog (y_ch s n) <> [] -> yc_failed (y_ch (ystep answer bound qcap s (ASend n)) n) = true /\ yc_mail (y_ch (ystep answer bound qcap s (ASend n)) n) = yc_mail (y_ch s n)).
+Proof. exact sys_dead_releases. Qed.
+
+(* ... and before that, the Close is never lost: from every reachable state with the I/O thread alive a caller blocked on a channel the server has closed can be released by reading what is on the wire and receiving (and callers of the other channels by the usual continuation) *)
+Theorem C09_system_never_stuck : forall (answer : N -> N -> N) (bound qcap : N) (progs : N -> list call), 2 <= qcap -> forall (sched : list act) (n : N), let s := yrun answer bound qcap (init_sys progs) sched in y_dead s = false -> yc_wait (y_ch s n) = true -> exists cont : list act, ~ In ADie cont /\ yc_wait (y_ch (yrun answer bound qcap s cont) n) = false.
+Proof. exact sys_never_stuck. Qed.
+
 (* non-vacuity of C09_chan_close_effect: the server closes channel 1 of two: its slot is gone,
    Channel.CloseOk(1) is queued, its consumer and its caller are told, channel 2 is untouched *)
 Example C09_example :
@@ -34,15 +46,51 @@ Example C09_example :
                  (1, [IAllocOk 1; IAllocOk 2], true); (0, [], true)].
 Proof. vm_compute. repeat split. Qed.
 
+(* non-vacuity and tightness at system level: the server answers channel 1's first request and
+   closes channel 1 at once; the I/O thread reads both before the caller wakes: the reply queue
+   of channel 1 holds TWO items (the reply, then the verdict) - with the capacity 2 the code
+   gives it nothing fails, channel 1's caller gets its reply and then an error, channel 2
+   completes both of its calls *)
+Example C09_system_example :
+  let answer := fun n r => n * 1000 + r in
+  let progs := fun n => if n =? 1 then [(KSync, 7); (KSync, 9)] else if n =? 2 then [(KSync, 5); (KSync, 6)] else [] in
+  let sched := [ASend 1; ASend 2; ADrain 1 1; ADrain 2 1; AWrite 2; ASrvRead; ASrvRead;
+                ASrvAnswer 1; ASrvClose 1; ARead; ARead] in
+  let s := yrun answer 16 2 (init_sys progs) sched in
+  let s' := yrun answer 16 2 s [ARecv 1; ASend 1; ASrvAnswer 2; ARead; ARecv 2; ASend 2; ADrain 2 1; AWrite 1;
+                                ASrvRead; ASrvAnswer 2; ARead; ARecv 2] in
+  yc_replyq (y_ch s 1) = [RVal 1007; RVerdict] /\ y_fail s = false /\ yc_slot_gone (y_ch s 1) = true /\
+  yc_results (y_ch s' 1) = [1007] /\ yc_failed (y_ch s' 1) = true /\ yc_wait (y_ch s' 1) = false /\
+  yc_results (y_ch s' 2) = [2005; 2006] /\ yc_failed (y_ch s' 2) = false /\ yc_prog (y_ch s' 2) = [] /\ y_fail s' = false.
+Proof. vm_compute. repeat split. Qed.
+
+(* ... and the hypothesis 2 <= qcap of the system theorems is needed: with room for one item only
+   the same schedule makes the I/O thread find the queue full *)
+Example C09_system_example_capacity_one_refuted :
+  let answer := fun n r => n * 1000 + r in
+  let progs := fun n => if n =? 1 then [(KSync, 7); (KSync, 9)] else [] in
+  exists sched, y_fail (yrun answer 16 1 (init_sys progs) sched) = true.
+Proof.
+  exists [ASend 1; ADrain 1 1; AWrite 1; ASrvRead; ASrvAnswer 1; ASrvClose 1; ARead; ARead]. vm_compute. reflexivity.
+Qed.
+
 Check C09_effect : forall (n code : N) (text dbg : str) (c c' : core), steady c -> n <> 0 -> process c (FMethod n (MChanClose code text), dbg) = (OOk, c') -> alookup n (c_slots c') = None /\ c_ids c' = snd (remove n (c_ids c)) /\ c_out c' = ob_append (c_out c) (ser_chan_close_ok n) /\ c_phase c' = c_phase c /\ c_ch0 c' = c_ch0 c /\ (forall k : N, k <> n -> alookup k (c_slots c') = alookup k (c_slots c)).
 Check C09_isolation : forall (f : frame) (dbg : str) (c : core) (o : outcome) (c' : core), frame_chan f <> 0 -> process c (f, dbg) = (o, c') -> slots_off (frame_chan f) c c'.
 Check C09_reusable : forall (ids : slots) (n : N), Inv ids -> in_range (cmax ids) n -> fst (insert_some true n (snd (remove n ids))) = ROk n.
 Check C09_stale_wakeup : forall (n : N) (c : core), n <> 0 -> alookup n (c_slots c) = None -> handle_event c (EvChan n) = (OOk, if c_high c <? out_len c then set_need c true else c, []).
 Check C09_no_panic : forall (c : core) (f : dframe) (o : outcome) (c' : core), process c f = (o, c') -> WFs c -> (forall site : N, o <> OPanic site) /\ WFs c'.
+Check C09_system_isolation : forall (answer : N -> N -> N) (bound qcap : N) (progs : N -> list call), 2 <= qcap -> forall sched : list act, let s := yrun answer bound qcap (init_sys progs) sched in y_fail s = false /\ (forall n : N, let c := y_ch s n in yc_results c = map (answer n) (firstn (length (yc_results c)) (syncs (yc_issued c))) /\ (yc_srv_closed c = false -> yc_wait c = false -> yc_failed c = false -> yc_results c = map (answer n) (syncs (yc_issued c))) /\ (yc_srv_closed c = false -> yc_wait c = true -> exists r : N, syncs (yc_issued c) = firstn (length (yc_results c)) (syncs (yc_issued c)) ++ [r] /\ inflight answer s n = [answer n r]) /\ (length (yc_replyq c) <= 2)%nat /\ yc_issued c ++ yc_prog c = progs n /\ (yc_failed c = true -> y_dead s = true \/ yc_srv_closed c = true)).
+Check C09_system_closed_caller_released : forall (answer : N -> N -> N) (bound qcap : N) (progs : N -> list call), 2 <= qcap -> forall (sched : list act) (n : N), let s := yrun answer bound qcap (init_sys progs) sched in y_dead s = true \/ yc_slot_gone (y_ch s n) = true -> yc_wait (y_ch (ystep answer bound qcap s (ARecv n)) n) = false /\ yc_wait (y_ch (ystep answer bound qcap s (ASend n)) n) = yc_wait (y_ch s n) /\ (yc_wait (y_ch s n) = false -> yc_failed (y_ch s n) = false -> yc_prog (y_ch s n) <> [] -> yc_failed (y_ch (ystep answer bound qcap s (ASend n)) n) = true /\ yc_mail (y_ch (ystep answer bound qcap s (ASend n)) n) = yc_mail (y_ch s n)).
+Check C09_system_never_stuck : forall (answer : N -> N -> N) (bound qcap : N) (progs : N -> list call), 2 <= qcap -> forall (sched : list act) (n : N), let s := yrun answer bound qcap (init_sys progs) sched in y_dead s = false -> yc_wait (y_ch s n) = true -> exists cont : list act, ~ In ADie cont /\ yc_wait (y_ch (yrun answer bound qcap s cont) n) = false.
 
 Print Assumptions C09_effect.
 Print Assumptions C09_isolation.
 Print Assumptions C09_reusable.
 Print Assumptions C09_stale_wakeup.
 Print Assumptions C09_no_panic.
+Print Assumptions C09_system_isolation.
+Print Assumptions C09_system_closed_caller_released.
+Print Assumptions C09_system_never_stuck.
 Print Assumptions C09_example.
+Print Assumptions C09_system_example.
+Print Assumptions C09_system_example_capacity_one_refuted.
